@@ -6,5 +6,6 @@ CONSTANT RestoreMode = "replace"
 CONSTANT MaxLog = 6
 CONSTANT MaxSnaps = 3
 CONSTANT MaxDowns = 3
+CONSTANT MaxFaults = 1
 CONSTANT MaxInstalls = 3
 
